@@ -201,6 +201,13 @@ func init() {
 			x, y := a[0].(Slice), a[1].(Slice)
 			return sym.Bool(x.St != nil && x.St == y.St)
 		},
+		"vEncodeFormats": func(e *Exec, c *frame, fn *ssa.Function, a []Value) Value {
+			st := e.newStore(types.Typ[types.Int], i64(len(e.encLog)))
+			for i, f := range e.encLog {
+				*st.cell(i) = f
+			}
+			return Slice{St: st, Len: st.N, Cap: st.N}
+		},
 		"vDelta": func(e *Exec, c *frame, fn *ssa.Function, a []Value) Value {
 			x, y := a[0].(Slice), a[1].(Slice)
 			ox, oy := x.Off, y.Off
